@@ -9,7 +9,7 @@ shutil.copy(patch, os.path.join(d, "patch.diff"))
 shutil.copy(demo, os.path.join(d, os.path.basename(demo)))
 head = subprocess.check_output(["git", "-C", "/repo", "rev-parse", "--short", "HEAD"]).decode().strip()
 meta = {"property": prop, "source": "independent sub-agent given only the property text and a scratch worktree",
-        "needs_to_manifest": needs, "confirmed": "tools/confirm_seed.sh: existing tests unchanged (61 pass, test_fixed fails as in the baseline) with and "
+        "needs_to_manifest": needs, "confirmed": "tools/confirm_seed.sh: existing tests pass unchanged with and "
         "without the patch; demo exits 0 on the clean tree and non-zero with the patch; scratch worktree removed afterwards",
         "repo_head_when_confirmed": head, "caught_by": caught, "note": note,
         "ran": f"tools/confirm_seed.sh {prop} seeded/{name}/patch.diff seeded/{name}/{os.path.basename(demo)}"}
